@@ -269,6 +269,51 @@ theorem tag_all_stop_incomplete :
     ∧ callFree (inline (tagAll preTagged)) = true := by
   decide
 
+/-! ## (3b) sharing -/
+
+/-- **Inlining one call does not copy.**  All results of one (tagged) call, inlined, TOGETHER fit
+    into the DAG nodes of the (inlined) return expressions together plus the nodes of the (inlined)
+    arguments together, plus one (the `KeyError` node): a sub-expression shared by several return
+    expressions stays one node, a parameter used many times does not multiply its argument, an
+    argument is shared between the results.  (DAG nodes = distinct sub-terms, i.e. the graph
+    after `deduplicate`, which `inline_calls` ends with; the real `Inliner` gets there by
+    memoising `map_call` and the substitutor per call — tied by the node counts of the
+    `trace-structure` batch.) -/
+theorem inline_preserves_sharing (ps : List String) (rets bs : Binds) (n m : Nat)
+    (hb : DagSizeLe (rets.map fun kv => inlineRet kv.1 rets) n)
+    (hbs : DagSizeLeBinds (inlineBinds bs) m) :
+    DagSizeLe (inlineList (allResults true ps rets bs)) (n + m + 1) := by
+  have := subst_dag_size ps (inlineBinds bs) _ n m hb hbs
+  have e : inlineList (allResults true ps rets bs)
+      = substList (callSubst ps (inlineBinds bs)) (rets.map fun kv => inlineRet kv.1 rets) := by
+    rw [inlineList_eq_map, substList_eq_map, allResults, List.map_map, List.map_map]
+    apply List.map_congr_left
+    intro kv _
+    simp [Function.comp, inline]
+  rw [e]; exact this
+
+/-- `f(a) = (add1 s, dbl s)` with the shared `s = sin a`, called with `a = mul3 x`: bodies 4 nodes,
+    argument 2 nodes, so both inlined results together fit into 4 + 2 + 1 nodes (a tree copy per
+    result would need 8) -/
+def shRets : Binds :=
+  [("_0", .op "add1" [.op "sin" [.placeholder "a"]]), ("_1", .op "dbl" [.op "sin" [.placeholder "a"]])]
+def shBinds : Binds := [("a", .op "mul3" [.placeholder "x"])]
+
+example : DagSizeLe (shRets.map fun kv => inlineRet kv.1 shRets) 4 :=
+  ⟨[.op "add1" [.op "sin" [.placeholder "a"]], .op "sin" [.placeholder "a"], .placeholder "a",
+    .op "dbl" [.op "sin" [.placeholder "a"]]], by decide, by
+    intro s hs
+    simp [shRets, inlineRet, inline, inlineList, frameSubList, frameSub] at hs
+    rcases hs with rfl | rfl | rfl | rfl | rfl | rfl <;> simp⟩
+example : DagSizeLeBinds (inlineBinds shBinds) 2 :=
+  ⟨[.op "mul3" [.placeholder "x"], .placeholder "x"], by decide, by
+    intro s hs
+    simp [shBinds, inlineBinds, inline, inlineList, frameSubBinds, frameSub] at hs
+    rcases hs with rfl | hs
+    · simp
+    · simp [frameSubList, frameSub] at hs
+      subst hs; simp⟩
+
 /-! ## non-vacuity: nesting, two results, clashing names -/
 
 def nvInterp (f : String) (vs : List Int) : Int :=
